@@ -289,6 +289,7 @@ func buildGVN(fn *ssa.Function) *gvnInfo {
 		return ok
 	}
 	keys := map[ssa.Value]string{}
+	local := map[ssa.Value]*types.Var{}
 	var key func(v ssa.Value, depth int) string
 	key = func(v ssa.Value, depth int) string {
 		if k, ok := keys[v]; ok {
@@ -330,6 +331,11 @@ func buildGVN(fn *ssa.Function) *gvnInfo {
 					}
 					if fa, ok := x.X.(*ssa.FieldAddr); ok && isStable(fieldOfAddr(fa)) {
 						k = "ld(" + fieldOfAddr(fa).Name() + "@" + fmt.Sprintf("%p", fieldOfAddr(fa)) + "," + key(fa.X, depth+1) + ")"
+					} else if ok && depth == 0 && !eff.opaque[fn] {
+						// written in this function (or through one of its calls): equal only where no such write
+						// lies between two loads - decided pair by pair below
+						local[x] = fieldOfAddr(fa)
+						k = "ldL(" + fieldOfAddr(fa).Name() + "@" + fmt.Sprintf("%p", fieldOfAddr(fa)) + "," + key(fa.X, depth+1) + ")"
 					}
 				}
 			case *ssa.Call:
@@ -421,8 +427,98 @@ func buildGVN(fn *ssa.Function) *gvnInfo {
 			fmt.Fprintf(os.Stderr, "  %s: %d\n", k, len(vs))
 		}
 	}
-	for _, vs := range byKey {
+	var ig *IG
+	for k, vs := range byKey {
 		if len(vs) < 2 {
+			continue
+		}
+		if len(k) > 4 && k[:4] == "ldL(" {
+			// loads of a field that the function writes: a and b are equal when every write (store to the field, call
+			// that may write it) reachable from a before a runs again cannot reach b
+			f := local[vs[0]]
+			if ig == nil {
+				ig = buildIG(fn)
+			}
+			var killers []ssa.Instruction
+			for _, b := range fn.Blocks {
+				for _, in := range b.Instrs {
+					switch x := in.(type) {
+					case *ssa.Store:
+						if fa, ok := x.Addr.(*ssa.FieldAddr); ok && fieldOfAddr(fa) == f {
+							killers = append(killers, in)
+						} else if !ok && eff.escaping[f] && types.Identical(x.Val.Type(), f.Type()) {
+							if _, isAlloc := x.Addr.(*ssa.Alloc); !isAlloc {
+								killers = append(killers, in)
+							}
+						}
+					case *ssa.MapUpdate:
+						if ld, ok := x.Map.(*ssa.UnOp); ok {
+							if fa, ok := ld.X.(*ssa.FieldAddr); ok && fieldOfAddr(fa) == f {
+								killers = append(killers, in)
+							}
+						}
+					case ssa.CallInstruction:
+						c := x.Common()
+						if _, isB := c.Value.(*ssa.Builtin); isB {
+							continue
+						}
+						callee := c.StaticCallee()
+						if callee == nil {
+							if c.IsInvoke() {
+								if nt, ok := c.Value.Type().(*types.Named); ok && nt.Obj().Pkg() != nil && !sameModule(nt.Obj().Pkg().Path(), fn.Pkg.Pkg.Path()) {
+									continue
+								}
+								if c.Value.Type().String() == "error" {
+									continue
+								}
+							}
+							killers = append(killers, in)
+							continue
+						}
+						if eff.mayWrite(callee, f, map[*ssa.Function]bool{}, inLibrary) {
+							killers = append(killers, in)
+						}
+					}
+				}
+			}
+			for _, a := range vs {
+				ai, ok := a.(ssa.Instruction)
+				if !ok {
+					continue
+				}
+				stopA := func(in ssa.Instruction) bool { return in == ai }
+				fromA := ig.reachPlain(ig.after(ai), stopA)
+				for _, b := range vs {
+					bi, ok := b.(ssa.Instruction)
+					if !ok || a == b || !fromA[ig.idx[bi]] {
+						continue
+					}
+					if !(ai.Block().Dominates(bi.Block())) {
+						continue
+					}
+					killed := false
+					for _, kl := range killers {
+						if !fromA[ig.idx[kl]] {
+							continue
+						}
+						if ig.reachPlain(ig.after(kl), stopA)[ig.idx[bi]] {
+							killed = true
+							break
+						}
+					}
+					if !killed {
+						// not transitive: each value lists the values it was compared with directly
+						if len(g.class[a]) == 0 {
+							g.class[a] = []ssa.Value{a}
+						}
+						if len(g.class[b]) == 0 {
+							g.class[b] = []ssa.Value{b}
+						}
+						g.class[a] = append(g.class[a], b)
+						g.class[b] = append(g.class[b], a)
+					}
+				}
+			}
 			continue
 		}
 		for _, v := range vs {
